@@ -1,4 +1,5 @@
 import PdeVerif.Model.Coords
+import PdeVerif.Model.Stencil
 import PdeVerif.Lemmas.Basic
 import Mathlib.Tactic.Ring
 import Mathlib.Tactic.LinearCombination
@@ -330,6 +331,38 @@ theorem from_expression_getitem {α : Type} (cl : GridClass) (n : ℕ) (ax : Ax)
   split_ifs at hf
   cases hf
   exact ⟨by simp [getitem, hi], indexOf?_spec _ _ _ (by simpa [getAxisIndex] using hi)⟩
+
+open PdeVerif.Stencil in
+/-- **the component order is the order of the differential operators** (cylindrical grids, the only class on
+which `axes ++ axes_symmetric` differs from `c.axes`), relative to C01's model of the operator kernels
+(`Model/Stencil.lean`, tied to `pde/backends/numba/operators/cylindrical_sym.py` by the check of C01): with
+`ir, iz, iφ` the indices `get_axis_index` returns for the NAMES `r, z, φ`,
+* the divergence takes `1/r + ∂_r` of component `ir` and `∂_z` of component `iz` and ignores `iφ`,
+* the gradient of a scalar stores `∂_r` as component `ir`, `∂_z` as component `iz` and `0` as component `iφ`,
+* the vector Laplacian applies the curvature term `-f/r²` to the components `ir` and `iφ` but not to `iz`. -/
+theorem operators_use_component_order_cyl (r : Int → K) (dr dz : K) (a : Arr K) (i j : Int) :
+    ∃ ir iz iφ : ℕ, getAxisIndex .cylindrical 2 .r = some ir ∧ getAxisIndex .cylindrical 2 .z = some iz ∧
+      getAxisIndex .cylindrical 2 .φ = some iφ ∧
+      cylDivergence r dr dz a i j =
+        a [(ir : Int), i, j] / r i + (a [(ir : Int), i+1, j] - a [(ir : Int), i-1, j]) / (((2:Nat):K) * dr)
+          + (a [(iz : Int), i, j+1] - a [(iz : Int), i, j-1]) / (((2:Nat):K) * dz) ∧
+      cylGradient dr dz a ir i j = (a [i+1, j] - a [i-1, j]) / (((2:Nat):K) * dr) ∧
+      cylGradient dr dz a iz i j = (a [i, j+1] - a [i, j-1]) / (((2:Nat):K) * dz) ∧
+      cylGradient dr dz a iφ i j = ((0:Nat):K) ∧
+      (∀ c : ℕ, c = ir ∨ c = iφ →
+        cylVectorLaplace r dr dz a c i j =
+          (a [(c : Int), i, j+1] - ((2:Nat):K) * a [(c : Int), i, j] + a [(c : Int), i, j-1]) / (dz * dz)
+            - a [(c : Int), i, j] / (r i * r i)
+            + (a [(c : Int), i+1, j] - a [(c : Int), i-1, j]) / (((2:Nat):K) * dr) / r i
+            + (a [(c : Int), i+1, j] - ((2:Nat):K) * a [(c : Int), i, j] + a [(c : Int), i-1, j]) / (dr * dr)) ∧
+      cylVectorLaplace r dr dz a iz i j =
+        (a [(iz : Int), i, j+1] - ((2:Nat):K) * a [(iz : Int), i, j] + a [(iz : Int), i, j-1]) / (dz * dz)
+          + (a [(iz : Int), i+1, j] - a [(iz : Int), i-1, j]) / (((2:Nat):K) * dr) / r i
+          + (a [(iz : Int), i+1, j] - ((2:Nat):K) * a [(iz : Int), i, j] + a [(iz : Int), i-1, j]) / (dr * dr) := by
+  refine ⟨0, 1, 2, by decide, by decide, by decide, ?_, rfl, rfl, rfl, ?_, ?_⟩
+  · simp [cylDivergence]
+  · rintro c (rfl | rfl) <;> simp [cylVectorLaplace]
+  · simp [cylVectorLaplace]
 
 /-- the classes whose conversion is consistent on this tree -/
 def OrderConsistentClass (cl : GridClass) : Prop :=
